@@ -156,7 +156,8 @@ def gen_field(rng, regime, force=None):
                 units=([rng.choice(UNITS) for _ in range(ndim)] if rng.random() < 0.3 else None),
                 nvdim=nvdim, vdims=vd, density=rng.choice([1.0, 1.0, 0.8, 0.5, 0.2, 0.0]), subs=subs,
                 unit=rng.choice([None, None, "A/m", "T"]), reps=reps, save=rng.random() < 0.85,
-                pyth=rng.random() < 0.3, sub=rng.getrandbits(32), intc=bool(force.get("intc")))
+                pyth=rng.random() < 0.3, sub=rng.getrandbits(32), intc=bool(force.get("intc")),
+                intstore=(rng.choice(["int16", "int32", "int64", "uint8"]) if regime == "exact" and rng.random() < 0.08 else None))
 
 
 def gen_legacy(rng, regime):
@@ -313,6 +314,13 @@ def build_field(c):
         arr = np.array(vals, dtype=float).reshape(shape)
     mask = np.array([rng.random() < c["density"] for _ in range(size // nv)], dtype=bool).reshape(shape[:-1])
     kw = {}
+    if c.get("intstore"):
+        # integer storage with values whose SQUARES leave the range of the storage type (the norm is a real number)
+        top = {"int16": 3000, "int32": 10 ** 6, "int64": 4 * 10 ** 9, "uint8": 200}[c["intstore"]]
+        lo = 0 if c["intstore"].startswith("u") else -top
+        arr = np.array([rng.randint(lo, top) for _ in range(size)], dtype=float).reshape(shape)
+        kw["dtype"] = getattr(np, c["intstore"])
+        arr = arr.astype(kw["dtype"])
     if c["vdims"] is not None:
         kw["vdims"] = list(c["vdims"])
     if c.get("unit") is not None:
@@ -395,8 +403,9 @@ def legacy_sections(path):
     k += 1
     while k < len(lines):
         w = lines[k].split(" ")
-        if w[0] in ("SCALARS", "VECTORS"):
-            out.append([w[0], unquote(w[1])])  # the legacy writer percent-encodes array names
+        if w[0] in ("SCALARS", "VECTORS", "COLOR_SCALARS"):
+            # (VTK's legacy writer stores unsigned-char scalars as COLOR_SCALARS: the same section for this comparison)
+            out.append(["SCALARS" if w[0] == "COLOR_SCALARS" else w[0], unquote(w[1])])  # the legacy writer percent-encodes array names
         elif w[0] == "FIELD":
             cnt = int(w[-1])
             names = []
@@ -404,7 +413,7 @@ def legacy_sections(path):
             while len(names) < cnt and k < len(lines):
                 # `name ncomp ntuples type`, then the values on the following line(s)
                 parts = lines[k].rsplit(" ", 3)
-                if len(parts) == 4 and parts[1].isdigit() and parts[2].isdigit() and parts[3] in ("double", "long", "vtktypeint64", "float", "int"):
+                if len(parts) == 4 and parts[1].isdigit() and parts[2].isdigit() and parts[3] in ("double", "long", "vtktypeint64", "float", "int", "short", "unsigned_char", "unsigned_short", "char", "signed_char", "unsigned_int", "unsigned_long", "vtktypeuint64"):
                     names.append(unquote(parts[0]))
                 k += 1
             out.append(["FIELD", names])
@@ -1078,7 +1087,10 @@ def cmp_grid(gj, r, dis, exact):
             dis.append(f"to_vtk coordinates axis {a}: impl {x[:4]}.. vs model {y[:4]}..")
     if gj.get("active") != m.get("active"):
         dis.append(f"to_vtk active (scalars, vectors) attributes: impl {gj.get('active')} vs model {m.get('active')}")
-    ni, nm = [(a["name"], a["ncomp"], a["int"]) for a in gj["cell"]], [(a["name"], a["ncomp"], a["int"]) for a in m["cell"]]
+    # (the VTK element type of the VALUE arrays follows the field's storage type, which the model does not carry: the
+    #  integer flag is compared for the validity array only; values are compared exactly below)
+    flag = lambda a: a["int"] if a["name"] == "valid" else None
+    ni, nm = [(a["name"], a["ncomp"], flag(a)) for a in gj["cell"]], [(a["name"], a["ncomp"], flag(a)) for a in m["cell"]]
     if ni != nm:
         dis.append(f"to_vtk arrays: impl {ni} vs model {nm}")
         return
@@ -1179,8 +1191,8 @@ def compare(case, obs, rs):
                     dis.append(f"to_file({rec['rep']!r}): side-car content impl {a} vs model {b}")
             if rec.get("vgrid") is not None:
                 # the arrays in the order VTK's reader returns them for this file (legacy forms: active attribute first)
-                ai = [[a["name"], a["ncomp"], a["int"]] for a in rec["vgrid"]["cell"]]
-                if ai != r["ok"]["arrays"]:
+                ai = [[a["name"], a["ncomp"], a["int"] if a["name"] == "valid" else None] for a in rec["vgrid"]["cell"]]
+                if ai != [[x[0], x[1], x[2] if x[0] == "valid" else None] for x in r["ok"]["arrays"]]:
                     dis.append(f"to_file({rec['rep']!r}): arrays in the file as VTK reads it {ai} vs model {r['ok']['arrays']}")
                 if "sections" in rec and rec["sections"] != r["ok"]["sections"]:
                     dis.append(f"to_file('txt'): CELL_DATA sections of the file {rec['sections']} vs model {r['ok']['sections']}")
